@@ -1121,6 +1121,20 @@ func (x *c03) ruleWrap() {
 					guarded = false
 				}
 			}
+			// a wrap can also be returned directly: `return nil, &BuildError{err: e}`
+			nWrapRets := 0
+			ast.Inspect(fi.Decl.Body, func(m ast.Node) bool {
+				if _, isLit := m.(*ast.FuncLit); isLit {
+					return false
+				}
+				if ret, ok := m.(*ast.ReturnStmt); ok && len(ret.Results) > 0 && x.isWrap(info, ret.Results[len(ret.Results)-1], buildErr, valObjs) {
+					nWrapRets++
+					if !c.GuardedBy(ret, func(l Lit) bool { return l.Truth && l.Tag == nil && isOk(l.Expr) }) {
+						guarded = false
+					}
+				}
+				return true
+			})
 			switch {
 			case len(rets) > 0:
 				extra := ""
@@ -1128,12 +1142,12 @@ func (x *c03) ruleWrap() {
 					extra = fmt.Sprintf(" (the value is asserted only to %s, not to compiler.Error)", strings.Join(partial, ", "))
 				}
 				o.Bad("a path from the call of %s reaches `return` at %s with the error neither wrapped into *BuildError nor known not to be a compiler.Error%s", funcKey(fn), r.P.Pos(rets[0].Pos()), extra)
-			case len(wraps) == 0:
+			case len(wraps)+nWrapRets == 0:
 				o.Bad("no assignment wrapping the error of %s into *BuildError found before the returns", funcKey(fn))
 			case !guarded:
 				o.Bad("the wrap into *BuildError is not guarded by the success of the assertion to compiler.Error")
 			default:
-				o.OK("every path to an error return passes `%s = &BuildError{...}` under ok of the assertion to compiler.Error, or the edge on which that assertion failed (%d wrap sites)", ev.Name(), len(wraps))
+				o.OK("every path to an error return passes `%s = &BuildError{...}` (or returns the wrap) under ok of the assertion to compiler.Error, or the edge on which that assertion failed (%d wrap sites)", ev.Name(), len(wraps)+nWrapRets)
 			}
 		}
 	}
